@@ -54,6 +54,9 @@ type c03Req struct {
 	policy  string
 	eff     []synth.Security
 	invalid bool // the request is ALSO invalid (doubly bad)
+	// cancelled: the request context is already done when the handler starts (client went away); only the gate
+	// is judged then - what is answered to nobody is not
+	cancelled bool
 }
 
 func c03(c *orch.Ctx) (*report.Result, error) {
@@ -181,6 +184,19 @@ func c03(c *orch.Ctx) (*report.Result, error) {
 					reqs = append(reqs, c03Req{br: br, rr: rr, policy: pol, eff: eff, invalid: br.Expect422})
 				}
 			}
+			if len(eff) > 0 {
+				for _, pol := range []string{"*=401", ""} {
+					k++
+					if br, ok := buildRequest(r, p, rr.c, rr.m, fmt.Sprintf("%s-r%04d", p.Name, k), reqPlan{Class: "typical"}); ok {
+						br.Req.Headers["X-Verif-Cancel"] = "1"
+						if pol != "" {
+							br.Req.Headers["X-Verif-Policy"] = pol
+						}
+						br.Why += "; request context already cancelled"
+						reqs = append(reqs, c03Req{br: br, rr: rr, policy: pol, eff: eff, cancelled: true})
+					}
+				}
+			}
 		}
 		gor := 0
 		if !c.Quick() {
@@ -288,6 +304,9 @@ func c03(c *orch.Ctx) (*report.Result, error) {
 							res.AddViolation("invoked-although-every-alternative-refused", where, label+" the controller method ran", cs)
 							continue
 						}
+						if q.cancelled {
+							continue // nobody is listening: the status is not judged
+						}
 						okStatus := false
 						for _, st := range refusalStatuses {
 							if st == resp.Status {
@@ -311,6 +330,9 @@ func c03(c *orch.Ctx) (*report.Result, error) {
 						continue
 					}
 					counts["authorised"]++
+					if q.cancelled {
+						continue // whether a handler still bothers to serve a vanished client is not stated
+					}
 					// authorised: a valid request must be delivered, an invalid one answered 422
 					if q.invalid {
 						if len(calls) > 0 || resp.Status != 422 {
